@@ -24,7 +24,7 @@ func ownerOfPass(s *kmodel.Store, pass *world.Pass) (world.Ident, int64, bool) {
 	switch pass.Ctrl {
 	case world.CtrlObjectSet:
 		k = osw.OSKey(pass.Key.Name)
-	case world.CtrlPhase:
+	case world.CtrlPhase, world.CtrlPhaseAnno:
 		k = world.PKOKey("ObjectSetPhase", pass.Key.Namespace, pass.Key.Name)
 	default:
 		return world.Ident{}, 0, false
@@ -68,6 +68,11 @@ func revisionIn(s *kmodel.Store) func(world.Ident) int64 {
 
 // judgeRequests is the per-request part of the monitor (also used by the interleaving sub).
 func judgeRequests(pass *world.Pass, self world.Ident, selfRev func() int64, revOf func(world.Ident) int64) []world.Finding {
+	return judgeRequestsFor(pass, self, selfRev, revOf, false)
+}
+
+// judgeRequestsFor: anno = ownership is kept in the package-operator.run/owners annotation.
+func judgeRequestsFor(pass *world.Pass, self world.Ident, selfRev func() int64, revOf func(world.Ident) int64, anno bool) []world.Finding {
 	var out []world.Finding
 	bad := func(id, f string, a ...any) {
 		out = append(out, world.Finding{Monitor: "handover", Identity: id, Message: fmt.Sprintf(f, a...)})
@@ -81,14 +86,14 @@ func judgeRequests(pass *world.Pass, self world.Ident, selfRev func() int64, rev
 		if r.Pre != nil && preOK && postOK && postRev < preRev {
 			bad("revision-lowered", "request #%d %s lowers the recorded revision of the object from %d to %d", i, r, preRev, postRev)
 		}
-		ctrls := world.Controllers(r.Post, false)
+		ctrls := world.Controllers(r.Post, anno)
 		if len(ctrls) > 1 {
 			bad("two-controllers", "request #%d %s leaves the object with %d controllers: %v", i, r, len(ctrls), ctrls)
 		}
-		preCtrls := world.Controllers(r.Pre, false)
+		preCtrls := world.Controllers(r.Pre, anno)
 		changed := len(ctrls) == 1 && (len(preCtrls) != 1 || preCtrls[0] != ctrls[0])
 		if changed {
-			if !world.ControlledBy(r.Post, false, self) {
+			if !world.ControlledBy(r.Post, anno, self) {
 				bad("foreign-controller-set", "request #%d %s by %s/%s makes %v the controller", i, r, self.Kind, self.Name, ctrls[0])
 			}
 			if r.Pre != nil && preOK && preRev > selfRev() {
@@ -104,13 +109,13 @@ func judgeRequests(pass *world.Pass, self world.Ident, selfRev func() int64, rev
 					bad("took-object-from-newer-revision", "request #%d %s: %s/%s (revision %d) takes control from %s/%s of revision %d", i, r, self.Kind, self.Name, selfRev(), pc.Kind, pc.Name, pr)
 				}
 				kept := false
-				for _, o := range world.Owners(r.Post, false) {
+				for _, o := range world.Owners(r.Post, anno) {
 					if o.UID == pc.UID && o.Name == pc.Name && !o.Controller {
 						kept = true
 					}
 				}
-				if !kept {
-					bad("former-controller-dropped", "request #%d %s: former controller %s/%s is not kept as plain owner after the handover (owners now %v)", i, r, pc.Kind, pc.Name, world.Owners(r.Post, false))
+				if !kept && !anno {
+					bad("former-controller-dropped", "request #%d %s: former controller %s/%s is not kept as plain owner after the handover (owners now %v)", i, r, pc.Kind, pc.Name, world.Owners(r.Post, anno))
 				}
 			}
 		}
@@ -201,10 +206,13 @@ type scenario struct {
 	// Faults: budget of "one request of a revision's pass (the preflight dry run included) is
 	// answered 409 or 500 without taking effect"
 	Faults int `json:"faults"`
+	// Holds: budget of "a third party puts a finalizer of its own on a managed object" (the object
+	// then outlives its delete, terminating, until the holder lets go)
+	Holds int `json:"holds,omitempty"`
 }
 
 func (sc scenario) name() string {
-	return fmt.Sprintf("%s delegated=%03b cp=%s users=%d edits=%d restarts=%d conflicts=%d longLived=%v rv0=%d preset=%q faults=%d", sc.Kind, sc.Mask, sc.CP, sc.Users, sc.Edits, sc.Restarts, sc.Conflicts, sc.LongLived, sc.RV0, sc.Preset, sc.Faults)
+	return fmt.Sprintf("%s delegated=%03b cp=%s users=%d edits=%d restarts=%d conflicts=%d longLived=%v rv0=%d preset=%q faults=%d holds=%d", sc.Kind, sc.Mask, sc.CP, sc.Users, sc.Edits, sc.Restarts, sc.Conflicts, sc.LongLived, sc.RV0, sc.Preset, sc.Faults, sc.Holds)
 }
 
 var chainObjs = [][]string{{"a", "b"}, {"a", "b", "c"}, {"a", "c", "d"}}
@@ -230,6 +238,27 @@ func mkRevision(w *world.World, i int, sc scenario, prev ...string) {
 		}
 	}
 	w.MustCreate(world.NewObjectSet(fmt.Sprintf("r%d", i+1), ps, nil, prev...))
+}
+
+// holdEvents: a third party puts its finalizer on a managed object (budgeted) and lets go of
+// terminating ones.
+func holdEvents(w *world.World) []world.Event {
+	evs := osw.ReleaseEvents(w)
+	if w.Budget["hold"] > 0 {
+		for _, k := range w.S.SortedKeys() {
+			o := w.S.Objs[k]
+			if k.Group != world.TestGroup || kmodel.Terminating(o.Content) || osw.HasFinalizer(o.Content, osw.HoldFinalizer) {
+				continue
+			}
+			k := k
+			evs = append(evs, world.Event{Name: "hold:" + k.Kind + "/" + k.Name, Apply: func(w *world.World) *world.Pass {
+				w.Budget["hold"]--
+				osw.AddFinalizer(w, k, osw.HoldFinalizer)
+				return nil
+			}})
+		}
+	}
+	return evs
 }
 
 func system(sc scenario) *world.System {
@@ -262,6 +291,7 @@ func system(sc scenario) *world.System {
 			w.Budget["restart"] = sc.Restarts
 			w.Budget["conflict"] = sc.Conflicts
 			w.Budget["fault"] = sc.Faults
+			w.Budget["hold"] = sc.Holds
 			return w
 		},
 		Events: func(w *world.World) []world.Event {
@@ -269,6 +299,7 @@ func system(sc scenario) *world.System {
 			evs = append(evs, osw.GCEvent(w)...)
 			evs = append(evs, osw.CrashEvents(w)...)
 			evs = append(evs, osw.ConflictEventsAll(w)...)
+			evs = append(evs, holdEvents(w)...)
 			if w.Budget["fault"] > 0 {
 				for _, k := range w.S.SortedKeys() {
 					if k.Group == "package-operator.run" && k.Kind == "ObjectSet" {
@@ -331,6 +362,7 @@ func scenarios(quick bool) []scenario {
 		{Kind: "chain2", Mask: 0b10, Restarts: 1},
 		{Kind: "chain2", LongLived: true},
 		{Kind: "chain2", Faults: 1},
+		{Kind: "chain2", Users: 1, Holds: 1},
 		{Kind: "chain2", CP: "None", Preset: "1"},
 		{Kind: "chain2", Preset: "9"},
 		{Kind: "chain3", LongLived: true},
@@ -565,6 +597,7 @@ func init() {
 				return 15
 			}, Run: run, Replay: replay, Parallel: true},
 			{Name: "interleavings", Shards: func(string) int { return 8 }, Run: runIL, Replay: replayIL},
+			{Name: "annotation-held", Shards: func(string) int { return 2 }, Run: runAnno, Replay: replayAnno},
 			{Name: "cluster-twin", Shards: func(string) int { return 4 }, Run: func(o checks.Opts) *report.Report { return twin.Run("C02", twinScenarios(o.Quick()), o) }, Replay: twin.Replay, Parallel: true},
 		},
 	})
